@@ -235,7 +235,27 @@ def run_direct(ctx):
         await st['done_scope']
         st['mark']('end2')
 
+    async def borrow_left_by_exception(st):
+        try:
+            async with st['res'].borrow(a=1):
+                st['mark']('start2')
+                raise KeyError('the job failed')
+        except KeyError:
+            pass
+        st['mark']('end2')
+
+    async def claim_left_by_exception(st):
+        try:
+            async with st['res'].claim(a=1):
+                st['mark']('start2')
+                raise KeyError('the job failed')
+        except KeyError:
+            pass
+        st['mark']('end2')
+
     special = {'channel iteration step to a second buffered message': None,
+               'leaving a borrow block by an ordinary exception (giving the resources back)': borrow_left_by_exception,
+               'leaving a claim block by an ordinary exception (giving the resources back)': claim_left_by_exception,
                'await a scope whose body is done, from one of its children': await_done_scope,
                'interval step that is due right now (body took exactly one period)': interval_exact,
                'second step of delay(0)': delay_zero_second}
